@@ -437,6 +437,9 @@ def run_case(case, part):
             "extension_name-object+labels": lambda: R["objects"]["x-verif-en1"](id="x-verif-en1--" + U + "01", created=TS, modified=TS, prop="p", labels=["l"], x_extra="e"),
             "extension_name-observable": lambda: R["observables"]["x-verif-en2"](prop="p"),
             "extension_name-observable+declared-x-property": lambda: R["observables"]["x-verif-en2"](prop="p", x_extra="e", defanged=True),
+            # the observable flavour of the decorator with UNDECLARED properties next to the implicit extension (custom, and through custom_properties)
+            "extension_name-observable+custom-property": lambda: R["observables"]["x-verif-en2"](prop="p", x_other=1, a_first="a", allow_custom=True),
+            "extension_name-observable+custom_properties-argument": lambda: R["observables"]["x-verif-en2"](prop="p", custom_properties={"x_other": [1], "zz_last": "z"}),
             # custom properties handed over in BOTH ways at once (inline keyword with allow_custom, and the custom_properties argument)
             "custom-inline+custom_properties-argument": lambda: stix2.v21.Identity(id="identity--" + U + "21", created=TS, modified=TS, name="n", x_bravo=1, x_delta=[1], allow_custom=True,
                                                                                    custom_properties={"x_alpha": 2, "x_charlie": {"k": 0.5}}),
@@ -488,7 +491,7 @@ def run(run):
             for ts in TRANSPLANT_TS:
                 cases.append({"kind": "transplant", "src": src, "dst": dst, "ts": ts, "all_options": False})
     for lab in ("extension_name-object", "extension_name-object+declared-x-property", "extension_name-object+custom-property", "extension_name-object+labels", "extension_name-observable",
-                "extension_name-observable+declared-x-property", "toplevel-extension-as-instance", "registered-extension-as-instance", "custom-inline+custom_properties-argument",
+                "extension_name-observable+declared-x-property", "extension_name-observable+custom-property", "extension_name-observable+custom_properties-argument", "toplevel-extension-as-instance", "registered-extension-as-instance", "custom-inline+custom_properties-argument",
                 "custom-inline+custom_properties-argument-20", "embedded-objects-of-other-version", "embedded-objects-of-other-version-20"):
         cases.append({"kind": "programmatic", "label": lab, "all_options": True})
     run.mode = "DEV"
